@@ -1,6 +1,7 @@
 import IndicatifModel.Proofs.MultiOrder
 import IndicatifModel.Proofs.MultiSpec
 import Batteries.Data.List.Perm
+import IndicatifModel.Proofs.Rows
 /-!
 # C02 — ordering level: slot bookkeeping of `MultiState` for every history of `insert*`/`remove`
 
@@ -283,3 +284,80 @@ theorem C02_remove_refines (m : Multi) (hw : WF m) (owner : Nat → Nat) (spec :
     exact r.inj x (List.mem_filter.mp hx).1 y (List.mem_filter.mp hy).1
 
 end IndicatifModel.Multi
+
+/-! ## Row level (`Model/Rows.lean`, the model the `ROWS` stream validates against the terminal)
+
+`scr` is the ghost screen; the last `n` rows of it are the region the `MultiProgress` manages. -/
+namespace IndicatifModel.Rows
+
+/-- **A painted frame shows exactly the current members, each with its stored rendering, in visual
+order**: whatever the state before, after `paint` the managed region (the last `n` rows of the screen) is
+the concatenation, along `ordering`, of the members' stored lines — nothing else is in it, nothing is
+missing from it, and every bar's painted rows are its stored rows. -/
+theorem C02_painted_frame_is_members_in_order (w : RW) (extra : List Row) :
+    let w' := paint w extra
+    w'.n ≤ w'.scr.length ∧ w'.scr.drop (w'.scr.length - w'.n) = linesOf w' w'.ordering ∧
+    (∀ k, (w'.barAt k).painted = (w'.barAt k).lines) := by
+  obtain ⟨_, h2, h3, h4, _⟩ := paint_frame w extra
+  exact ⟨h2, h3, h4⟩
+
+/-- **For every history** (any interleaving of additions at any position, removals, updates, finishes,
+drops, log lines, clears, suspends, time steps and limiter decisions) that is `CleanRunF` (no output of a
+*detached* bar's `suspend` closure below a frame — that output is not the multi's), started from the
+empty `MultiProgress`: whenever the frame is not marked stale, the managed region is exactly the rows
+that the members of `ordering` painted last, in visual order; and a finished member's painted rows are
+its stored rows (its last rendering stays as it is). -/
+theorem C02_managed_region_every_history (lim : Option (Limiter.Cfg × Limiter.St)) (now : Nat) (ops : List MOp)
+    (hc : CleanRunF { limiter := lim, now := now } ops) :
+    let w := run { limiter := lim, now := now } ops
+    (w.stale = false → w.n ≤ w.scr.length ∧ w.scr.drop (w.scr.length - w.n) = paintedOf w w.ordering) ∧
+    (∀ k, k < w.bars.length → (w.barAt k).b.finished = true → (w.barAt k).member = true →
+      (w.barAt k).painted = (w.barAt k).lines) := by
+  intro w
+  have h := frameOk_run ops _ (frameOk_init lim now) hc
+  exact ⟨h.frame, h.synced⟩
+
+/-- the state `MultiState::remove` builds before its forced redraw -/
+def detach (w : RW) (k : Nat) : RW :=
+  { w with bars := w.bars.modify k (fun rb => { rb with member := false }),
+           ordering := w.ordering.filter (· ≠ k), stale := true }
+
+theorem allow_ordering (w : RW) (f : Bool) : (allow w f).2.ordering = w.ordering := by
+  unfold allow; split
+  · rfl
+  · split <;> rfl
+
+/-- **A removed bar leaves the frame at once**: `MultiProgress::remove` takes the bar out of `ordering`
+and repaints (forced), so the managed region after the call is built from the other members only. -/
+theorem C02_removed_bar_not_in_frame (w : RW) (k : Nat) (hp : w.panicked = false) (hk : k < w.bars.length)
+    (hm : (w.barAt k).member = true) :
+    let w' := step w (.remove k)
+    k ∉ w'.ordering ∧ w'.stale = false ∧ w'.scr.drop (w'.scr.length - w'.n) = linesOf w' w'.ordering := by
+  intro w'
+  have hk' : ¬ (k ≥ w.bars.length ∨ (!(w.barAt k).member) = true) := by
+    rw [hm]; simp; omega
+  have e : w' = draw (detach w k) true [] := by
+    show step w (.remove k) = _
+    simp only [step, hp, Bool.false_eq_true, if_false, hk', detach]
+  rcases draw_cases (detach w k) true [] with ⟨_, hf, _⟩ | hpaint
+  · cases hf
+  · rw [e, hpaint]
+    obtain ⟨h1, _, h3, _⟩ := paint_frame (allow (detach w k) (true || decide ((detach w k).orphan ≠ []))).2 []
+    refine ⟨?_, h1, h3⟩
+    intro hin
+    have hsub : k ∈ (allow (detach w k) (true || decide ((detach w k).orphan ≠ []))).2.ordering := by
+      simp only [paint] at hin
+      exact List.mem_of_mem_drop hin
+    rw [allow_ordering] at hsub
+    simp [detach] at hsub
+
+/-- non-vacuity: a history with three bars (one inserted in front), a removal and a finish is clean; its
+final managed region is the two remaining members in visual order -/
+example :
+    let ops : List MOp := [.add 0 0 (some 10) 1 .andLeave [⟨65, 1⟩], .add 0 0 (some 10) 1 .andLeave [⟨66, 1⟩],
+      .add 1 0 (some 10) 1 .andLeave [⟨67, 1⟩], .bar 0 .tick, .bar 1 .tick, .bar 2 .tick, .remove 0,
+      .bar 1 (.finish .andLeave)]
+    CleanRunF {} ops ∧ (run {} ops).ordering = [2, 1] ∧ (run {} ops).stale = false ∧ (run {} ops).n = 2 := by
+  refine ⟨⟨trivial, trivial, trivial, trivial, trivial, trivial, trivial, trivial, trivial⟩, ?_, ?_, ?_⟩ <;> decide +kernel
+
+end IndicatifModel.Rows
